@@ -3102,7 +3102,24 @@ impl<Front: SocketHandler> ConnectionH2<Front> {
                     let edits = std::mem::take(&mut parts.context.headers_response);
                     super::shared::apply_response_header_edits(kawa, &edits);
                 }
+                // The trailer fields of an H1 chunked message are parsed one
+                // line at a time, possibly over several reads. Encoding the
+                // fields of a section whose closing Flags block is not there
+                // yet would leave them in the converter with no frame to carry
+                // them: `finalize` drops them, but the HPACK encoder has
+                // already put them in its dynamic table, and every later
+                // header block of the connection then references entries the
+                // peer's decoder never saw. Hold them back until the section
+                // is complete.
+                let mut unterminated_trailer_fields = Vec::new();
+                if matches!(kawa.parsing_phase, kawa::ParsingPhase::Trailers) {
+                    while matches!(kawa.blocks.back(), Some(kawa::Block::Header(_))) {
+                        unterminated_trailer_fields.extend(kawa.blocks.pop_back());
+                    }
+                }
                 kawa.prepare(&mut converter);
+                kawa.blocks
+                    .extend(unterminated_trailer_fields.into_iter().rev());
                 // The pre-prepare gate at line 2483 only inserts into
                 // `rst_sent` when `kawa.is_error()` is already true on
                 // entry. The HPACK over-budget abort path
